@@ -43,6 +43,13 @@ func (self ValueRange) Fields() (map[string]*Value, *Interrupt) {
 	return map[string]*Value{
 		"start": self.Start,
 		"end":   self.End,
+		"to_string": NewValueBuiltinFunction(func(executor Executor, cancelCtx *context.Context, span errors.Span, args ...Value) (*Value, *Interrupt) {
+			display, i := self.Display()
+			if i != nil {
+				return nil, i
+			}
+			return NewValueString(display), nil
+		}),
 		"rev": NewValueBuiltinFunction(func(executor Executor, cancelCtx *context.Context, span errors.Span, args ...Value) (*Value, *Interrupt) {
 			start := (*self.Start).(ValueInt).Inner
 			end := (*self.End).(ValueInt).Inner
